@@ -987,6 +987,9 @@ def _build_constant(
                 )
             else:
                 return _build(parsed.body, parent, **kwargs)  # type: ignore[attr-defined]
+    if isinstance(node.value, (float, complex)):
+        # Non-finite literals (like `1e400`) have no literal repr: spell them like `ast.unparse` does.
+        return repr(node.value).replace("inf", f"1e{sys.float_info.max_10_exp + 1}")
     return {type(...): lambda _: "..."}.get(type(node.value), repr)(node.value)
 
 
